@@ -12,7 +12,7 @@ from ..skeleton import TRUE, Env, T, func_term, show
 from ..skelrules import check_skeleton, spec_from_src
 
 PROP = "C11"
-FLOORS = {"C11-P1": 30, "C11-T1": 34, "C11-Q1": 7, "C11-I1": 3, "C11-D1": 20}
+FLOORS = {"C11-Q2": 1, "C11-P1": 30, "C11-T1": 34, "C11-Q1": 7, "C11-I1": 3, "C11-D1": 20}
 
 EXPLANATION = (
     "Decided: (a) each counting form equals the size of its listing form for the pairs that are derived by construction (P1: count_X = Count(self.L(args)) "
@@ -114,6 +114,7 @@ def run(ctx: Ctx) -> None:
     ctx.run(rule_q1, ctx)
     ctx.run(oneshot.report, ctx, "C11-I1", ["permuta.permutils.statistics"], ["PermutationStatistic.distribution_for_length"])
     ctx.run(rule_d1, ctx)
+    ctx.run(rule_q2, ctx)
 
 
 # ------------------------------------------------------------------ P1
@@ -423,6 +424,36 @@ DEFS: List[Tuple[str, List[str], str]] = [
 ]
 
 
+def rule_q2(ctx: Ctx) -> None:
+    """A PermutationStatistic carries its name and function, nothing else: results of the distribution and
+    comparison tools cannot depend on which queries the same object answered before.  Unreviewed state
+    (a memo) is neither accused nor passed: it needs its own argument."""
+    repo = ctx.repo
+    ps = repo.cls("PermutationStatistic")
+    stores = 0
+    for fi in repo.all_funcs():
+        top = fi
+        while top.parent is not None:
+            top = top.parent
+        if top.cls is not ps:
+            continue
+        for node in walk_no_nested(fi.node):
+            if isinstance(node, (ast.Assign, ast.AugAssign, ast.AnnAssign)):
+                for t in (node.targets if isinstance(node, ast.Assign) else [node.target]):
+                    for leaf in (t.elts if isinstance(t, ast.Tuple) else [t]):
+                        base = leaf
+                        while isinstance(base, ast.Subscript):
+                            base = base.value
+                        if isinstance(base, ast.Attribute) and isinstance(base.value, ast.Name) and base.value.id in ("self", "cls", ps.name):
+                            stores += 1
+                            if top.name != "__init__":
+                                raise AnalysisError(f"{fi.where}: stores `{unparse(leaf)[:50]}` – state on a statistic object/class outside its constructor; the tools' results may depend on earlier queries (not decided)")
+    mutable_cls = [k for k, v in ps.assigns.items() if isinstance(v, (ast.Dict, ast.List, ast.Set)) or (isinstance(v, ast.Call) and call_name(v) and call_name(v)[-1] in ("dict", "list", "set", "defaultdict"))]
+    if mutable_cls:
+        raise AnalysisError(f"{ps.where}: class-level mutable state {mutable_cls} (not decided)")
+    ctx.ok("C11-Q2", ps.where, f"statistic objects are stateless beyond (name, func): {stores} attribute stores, all in the constructor; no class-level mutable container")
+
+
 def rule_d1(ctx: Ctx) -> None:
     repo = ctx.repo
     for name, specs, what in DEFS:
@@ -563,6 +594,7 @@ def _variants():
         V("transformed-one-shot", replace_expr(ST, "PermutationStatistic.check_all_transformed", "list(cls._get_all())", "cls._get_all()"), "fire", "C11-I1", "the original defect"),
         V("distribution-filtered", replace_expr(ST, "PermutationStatistic.distribution_for_length", "Counter((self.func(p) for p in iterator))", "Counter((self.func(p) for p in iterator if len(p) > 1))"), "fire", "C11-Q1"),
         V("distribution-wrong-level", replace_expr(ST, "PermutationStatistic.distribution_for_length", "perm_class.of_length(n)", "perm_class.of_length(n + 1)"), "fire", "C11-Q1"),
+        V("distribution-memo-on-object", insert_stmt(ST, "PermutationStatistic.distribution_for_length", "iterator = perm_class.of_length(n) if perm_class else Perm.of_length(n)", "self._last_n = n", "before"), "undecided", note="unreviewed state on a statistic object"),
         V("peaks-nonstrict", replace_expr(PE, "Perm.peaks", "prev < curr > nxt", "prev < curr >= nxt"), "fire", "C11-D1"),
         V("valleys-as-peaks", replace_expr(PE, "Perm.valleys", "prev > curr < nxt", "prev < curr > nxt"), "fire", "C11-D1"),
         V("peaks-index-shift", replace_expr(PE, "Perm.peaks", "idx + 1", "idx"), "fire", "C11-D1"),
